@@ -37,7 +37,13 @@ def data(rng, tier, kinds=("tall", "wide", "square", "deficient", "decay")):
         X = rng.normal(size=(n, m))
     X = X * float(10.0 ** rng.uniform(-1, 1))
     X = X - X.mean(axis=0)
+    if kind in ("tall", "wide", "square", "deficient") and rng.random() < 0.12 and n >= 4:
+        # whole-number data that are exactly centred (mirror-image rows), as an integer-typed table would be
+        half = np.round(X[: n // 2] / max(float(np.abs(X).max()), 1e-300) * 30.0)
+        X = np.vstack([half, -half] + ([np.zeros((1, m))] if n % 2 else []))
     p = int(gens.pick(rng, (1, 1, 2, 3)))
+    if m <= 6 and rng.random() < 0.08:
+        p = m  # as many targets as features: a square weight matrix
     W = rng.normal(size=(m, p))
     sig = max(float(np.abs(X @ W).std()), 1e-12)
     Y = X @ W + float(gens.pick(rng, (0.05, 0.3, 1.0))) * sig * rng.normal(size=(n, p))
@@ -140,7 +146,7 @@ def x_guard(X, tol=1e-12):
     estimator's absolute cut self.tol."""
     from .sel import spectrum_clear_of_cut
 
-    return spectrum_clear_of_cut(np.linalg.eigvalsh(X.T @ X), cut=tol)
+    return spectrum_clear_of_cut(np.linalg.eigvalsh(X.T @ X), cut=tol, absolute_cut=False)  # PCovR's cut is relative to the largest eigenvalue
 
 
 def align(A, B):
@@ -219,7 +225,11 @@ def fit_pcovr(j, label, X, Y, reg, regressor_obj=None, past=None, **kw):
         j.note("estimators_with_a_past")
         j.lib(f"fit:{label}", est.fit, Xbuf, Ybuf, **extra)
         return est
-    Xin, Yin = forms.present(X, route.get("xform", "C")), forms.present(Yfit, route.get("yform", "C"))
+    Xi = X
+    if route.get("xint") and np.all(X == np.round(X)) and float(np.abs(X).max()) < 2**30:
+        Xi = forms.as_integer(X, route["xint"])  # whole-number data handed over with an integer dtype
+        j.note("integer_typed_inputs")
+    Xin, Yin = forms.present(Xi, route.get("xform", "C")), forms.present(Yfit, route.get("yform", "C"))
     if route.get("xform", "C") != "C":
         j.note("non_default_containers")
     if route.get("via") == "fit_transform":
@@ -237,12 +247,43 @@ def fit_pcovr(j, label, X, Y, reg, regressor_obj=None, past=None, **kw):
     return forms.carry(est, route.get("carry", "same"), j)  # what is used afterwards may be a copy of what was fitted
 
 
+def many_rows_relation(j, X, Y, reg, a, k):
+    """More than 4096 / 8192 rows (sizes an implementation might process block-wise): the table stacked r times is,
+    for every formula of the model, the table multiplied by sqrt(r) - the same Gram structure, the same regression -
+    so the two fits must agree (projections of new data, predictions, eigenvalues); the second one has few rows."""
+    from skmatter.decomposition import PCovR
+
+    n, m = X.shape
+    if reg["kind"] in ("precomputed", "precomputed_W") or n < 2:
+        return
+    sv = np.linalg.svd(X, compute_uv=False)
+    if len(sv) < m or sv[-1] < 1e-3 * sv[0]:
+        return  # the two regressions are only equal to rounding when they are well conditioned (scikit-learn's solver)
+    r = int(np.ceil(4100 / n)) + (1 if n % 7 == 0 else 0) + int(n % 3)
+    Y2 = np.asarray(Y, dtype=float)
+    Xb, Yb = np.tile(X, (r, 1)), np.tile(Y2, (r,) + (1,) * (Y2.ndim - 1))
+    big = PCovR(mixing=a, n_components=k, space="feature", regressor=make_regressor(reg), svd_solver="full")
+    ref = PCovR(mixing=a, n_components=k, space="feature", regressor=make_regressor(reg), svd_solver="full")
+    j.lib("fit:stacked", big.fit, Xb, Yb)
+    j.lib("fit:scaled", ref.fit, np.sqrt(r) * X, np.sqrt(r) * Y2)
+    Z = X[: min(n, 7)] * 1.3 + 0.1
+    Tb, Tr = np.asarray(big.transform(Z)), np.asarray(ref.transform(Z))
+    sg = np.sign((Tb * Tr).sum(axis=0))
+    sg[sg == 0] = 1.0
+    sc = max(float(np.abs(Tr).max()), 1e-300)
+    j.close(f"a table of {len(Xb)} rows (the data stacked {r} times) gives the model of the data times sqrt({r}): projections", Tb, Tr * sg, 1e-7 * sc)
+    Pb, Pr = np.asarray(big.predict(Z)), np.asarray(ref.predict(Z))
+    j.close("... predictions", Pb, Pr, 1e-7 * max(float(np.abs(Pr).max()), 1e-300))
+    j.close("... singular values", big.singular_values_, ref.singular_values_, 1e-7 * max(float(np.abs(ref.singular_values_).max()), 1e-300))
+    j.note("more_than_4096_rows")
+
+
 def routes(rng, n=8):
     """Public routes to the same fitted model, drawn per fit: how the estimator is configured, which entry point fits
     it, which containers carry the numbers."""
     from . import forms
 
-    return [{"how": gens.pick(rng, forms.CONFIGURE), "via": gens.pick(rng, ("fit", "fit", "fit_transform")), "xform": gens.pick(rng, forms.PRESENT), "yform": gens.pick(rng, forms.PRESENT), "carry": gens.pick(rng, forms.CARRY), "clobber": bool(rng.random() < 0.5)} for _ in range(n)]
+    return [{"how": gens.pick(rng, forms.CONFIGURE), "via": gens.pick(rng, ("fit", "fit", "fit_transform")), "xform": gens.pick(rng, forms.PRESENT), "yform": gens.pick(rng, forms.PRESENT), "carry": gens.pick(rng, forms.CARRY), "clobber": bool(rng.random() < 0.5), "xint": gens.pick(rng, ("int64", "int32", None))} for _ in range(n)]
 
 
 def use_routes(j, case):
